@@ -140,6 +140,9 @@ pub struct Lockstep {
     pub judge_on: bool,
     /// (node, wrong value, reader) handed to executors in the current epoch
     pub stale_seen: Vec<(Key, Val, (Key, Option<Vec<Dep>>))>,
+    /// (node, root of the request) of wrong values handed to the user in the
+    /// current epoch
+    pub user_stale: Vec<(Key, Option<Key>)>,
 }
 
 impl Lockstep {
@@ -150,6 +153,7 @@ impl Lockstep {
             judge: Judge::default(),
             findings: Vec::new(),
             stale_seen: Vec::new(),
+            user_stale: Vec::new(),
             step: 0,
             fstep: 0,
             activations: 0,
@@ -207,6 +211,21 @@ impl Lockstep {
                 }
             }
         };
+        // the same for a wrong value the USER already received in this epoch
+        // for a node above: verifying that node "clean" stamped its cone, so a
+        // later direct request of a node in the cone is the same observation
+        // (it is classified with the root of the first one)
+        let mut root = self.cur_root;
+        if reader.is_none() {
+            let p = self.p.clone();
+            if let Some((_, r)) =
+                self.user_stale.iter().find(|(x, _)| *x == key || below(&p, *x).contains(&key))
+            {
+                root = *r;
+            } else {
+                self.user_stale.push((key, self.cur_root));
+            }
+        }
         self.findings.push(Finding {
             property: "C01",
             step: self.step,
@@ -215,7 +234,7 @@ impl Lockstep {
             key: Some(key),
             got: Some(got),
             reader,
-            root: self.cur_root,
+            root,
         });
     }
 
@@ -369,6 +388,7 @@ impl Lockstep {
     pub fn session_boundary(&mut self) {
         self.judge.since_session.clear();
         self.stale_seen.clear();
+        self.user_stale.clear();
     }
 }
 
@@ -1175,18 +1195,21 @@ pub fn classify(p: &Program, h: &[Op], acts: &[(usize, Key)], f: &Finding) -> Ve
         let mut hit = false;
         for s in 0..fstep {
             let Op::Query(ks) = &h[s] else { continue };
-            if ks.iter().any(above_or_eq) {
-                continue;
-            }
             let executed_below = acts
                 .iter()
                 .any(|(st, y)| *st == s && below_root.contains(y));
             if !executed_below {
                 continue;
             }
-            let repaired_since = (s + 1..fstep).any(|s2| {
-                matches!(&h[s2], Op::Query(k2) if k2.iter().any(above_or_eq))
-            });
+            // the root (or a node above it) was requested in that step: its
+            // recorded firewall set is refreshed only if it was RE-EXECUTED;
+            // a root that was merely verified clean (the lower node's value
+            // did not change) keeps the stale set
+            let root_executed = |st: usize| acts.iter().any(|(s2, y)| *s2 == st && above_or_eq(y));
+            if ks.iter().any(above_or_eq) && root_executed(s) {
+                continue;
+            }
+            let repaired_since = (s + 1..fstep).any(|s2| root_executed(s2));
             if !repaired_since {
                 hit = true;
             }
